@@ -438,6 +438,7 @@ func main() {
 	f.w.Emit(vt.M{"ev": "reset", "id": 0})
 	corpus := rtpkt.Corpus([]byte("verif-C08-payload"), true)
 	vias := []uint16{0, 1, 2, 3}
+	k := 0
 
 	// 0. the corpus itself, on every ingress
 	for _, c := range corpus {
@@ -447,9 +448,29 @@ func main() {
 			}
 		}
 	}
+	// 0b. the corpus with large payloads (SCMP quotes must be truncated to fit; buffers are 9000 bytes
+	//     with 512 bytes of headroom), intact, with a bad first path byte, and truncated by one byte
+	for _, size := range []int{900, 1100, 1232, 1233, 1300, 1500, 2000, 4000, 8000, 8300} {
+		big := make([]byte, size)
+		for i := range big {
+			big[i] = byte(i)
+		}
+		for _, c := range rtpkt.Corpus(big, true) {
+			if len(c.Raw) > 8400 {
+				continue
+			}
+			k++
+			f.feed(input{c.Raw, c.Via, k%2 == 0, fmt.Sprintf("%s payload=%d", c.Name, size)})
+			if len(c.Raw) > 40 {
+				b := append([]byte(nil), c.Raw...)
+				b[37] ^= 0x41 // inside the path meta header / first info field for 4-byte host addresses
+				f.feed(input{b, c.Via, k%2 == 1, fmt.Sprintf("%s payload=%d flip@37", c.Name, size)})
+				f.feed(input{c.Raw[:len(c.Raw)-1], c.Via, k%2 == 0, fmt.Sprintf("%s payload=%d trunc-1", c.Name, size)})
+			}
+		}
+	}
 	// 1. exhaustive single-field families on every corpus packet (own ingress; both routers
 	//    alternately): header bytes to every value, truncation at every length
-	k := 0
 	for _, c := range corpus {
 		if len(c.Raw) < 12 {
 			continue
